@@ -535,7 +535,11 @@ public:
           // Else, for tainted_volatile, this will allow a
           // time-of-check-time-of-use attack
           auto val_copy = std::make_unique<T_Deref>();
-          *val_copy = *val;
+          // Read the pointee through a tainted reference: it lies in sandbox
+          // memory and has the size and encoding of the sandbox's ABI
+          auto val_ref =
+            reinterpret_cast<const tainted_volatile<T_Deref, T_Sbx>*>(val);
+          *val_copy = val_ref->UNSAFE_unverified();
           return verifier(std::move(val_copy));
         }
       }
@@ -573,7 +577,9 @@ private:
   // Template needed to ensure that function isn't instantiated for unsupported
   // types like function pointers which causes compile errors...
   template<typename T2 = T>
-  inline const void* verify_range_helper(std::size_t count) const
+  inline const void* verify_range_helper(
+    std::size_t count,
+    std::size_t el_size = sizeof(T_CopyAndVerifyRangeEl)) const
   {
     static_assert(std::is_pointer_v<T>);
     static_assert(detail::is_fundamental_or_enum_v<T_CopyAndVerifyRangeEl>);
@@ -587,11 +593,10 @@ private:
       return nullptr;
     }
 
-    detail::dynamic_check(
-      count <= static_cast<std::size_t>(-1) / sizeof(T_CopyAndVerifyRangeEl),
-      "Range size overflows");
-    detail::check_range_doesnt_cross_app_sbx_boundary<T_Sbx>(
-      start, count * sizeof(T_CopyAndVerifyRangeEl));
+    detail::dynamic_check(count <= static_cast<std::size_t>(-1) / el_size,
+                          "Range size overflows");
+    detail::check_range_doesnt_cross_app_sbx_boundary<T_Sbx>(start,
+                                                             count * el_size);
 
     return start;
   }
@@ -600,7 +605,10 @@ private:
   inline std::unique_ptr<T_CopyAndVerifyRangeEl[]> copy_and_verify_range_helper(
     std::size_t count) const
   {
-    const void* start = verify_range_helper(count);
+    // The elements lie in sandbox memory: they have the size and encoding of
+    // the sandbox's ABI
+    const void* start = verify_range_helper(
+      count, sizeof(tainted_volatile<T_CopyAndVerifyRangeEl, T_Sbx>));
     if (start == nullptr) {
       return nullptr;
     }
@@ -608,9 +616,7 @@ private:
     auto target = std::make_unique<T_CopyAndVerifyRangeEl[]>(count);
 
     for (size_t i = 0; i < count; i++) {
-      auto p_src_i_tainted = &(impl()[i]);
-      auto p_src_i = p_src_i_tainted.get_raw_value();
-      detail::convert_type_fundamental_or_array(target[i], *p_src_i);
+      target[i] = impl()[i].UNSAFE_unverified();
     }
 
     return target;
